@@ -329,3 +329,19 @@ def stabCoeffs (A : List (List Rat)) (b : List Rat) : List Rat :=
   1 :: go s (ones s) []
 
 end PhreeqcVerif.RK
+
+namespace PhreeqcVerif.RK
+
+/-- stage values of one step for the linear test equation `y' = λ y` with `z = λ h` and `y = 1`:
+`k_i = z (1 + Σ_j a_ij k_j)` -/
+def stageVals (z : Rat) : List (List Rat) → List Rat → List Rat
+  | [], ks => ks
+  | r :: rs, ks => stageVals z rs (ks ++ [z * (1 + dotL r ks)])
+
+/-- growth factor of one step on the linear test equation -/
+def linStep (A : List (List Rat)) (b : List Rat) (z : Rat) : Rat := 1 + dotL b (stageVals z A [])
+
+/-- stage values of one step for a rate that depends on time only, `k_i = h p(t0 + c_i h)` -/
+def quadStep (b c : List Rat) (p : Rat → Rat) (t0 h : Rat) : Rat := dotL b (c.map fun ci => h * p (t0 + ci * h))
+
+end PhreeqcVerif.RK
